@@ -723,6 +723,7 @@ for _n, _d in (
     ("from_utf8", "str::from_utf8 (pure)"),
     ("Cursor::<T>::position", "current position (pure)"),
     ("Cursor::<T>::get_ref", "underlying buffer (pure)"),
+    ("<impl Index<I> for [T]>::index", "sub-slice / element by index (pure; bounds are E3's obligation)"),
 ):
     AXIOMS[_n] = _pure(_n)
     AXIOM_DOC[_n] = _d
